@@ -140,15 +140,16 @@ def rename_program(prog, rho):
         if op in ('AddVariable', 'SetRHS'):
             st['name'] = rename_ident(st['name'], rho)
             st['eqn'] = rename_text(st.get('eqn', ''), rho)
+        elif op == 'Query':
+            st['country'] = rho.get(st['country'], st['country'])
         elif op == 'AddTerm':
             st['name'] = rename_ident(st['name'], rho)
             st['term'] = rename_text(st['term'], rho)
         elif op == 'AddSupplier':
             st['eqn'] = rename_text(st.get('eqn', ''), rho)
         elif op in ('Exogenous', 'IC', 'RegisterCashFlow', 'GetName'):
-            st['var'] = rename_ident(st['var'], rho)
-            if op == 'Exogenous' and st['sector'].startswith('EXT.'):
-                st['var'] = st['var']          # currencies are not renamed
+            if not (op == 'Exogenous' and st['sector'].startswith('EXT.')):     # currencies are not renamed
+                st['var'] = rename_ident(st['var'], rho)
         elif op == 'Global':
             st['eqn'] = rename_text(st['eqn'], rho)
         elif op == 'SetAttr':
@@ -169,7 +170,7 @@ def series_map_rename(b0, b1, rho, multi0):
     res['both_built'] = True
 
     def rho_full(name):
-        if '__' not in name:
+        if '__' not in name or name.startswith('EXT_'):     # the external sector's names embed currencies, not codes
             return name
         full, local = name.split('__', 1)
         return rename_ident(full, rho) + '__' + rename_ident(local, rho)
@@ -256,7 +257,7 @@ def recountry(prog, mapping, drop_global=True):
                 st['currency'] = cur
                 st.pop('region', None)
         for key in ('country',):
-            if key in st:
+            if key in st and st[key] in mapping:
                 st[key] = mapping[st[key]][0]
         for key in ('sector', 'market', 'supplier', 'src', 'dst'):
             if key in st and not st[key].startswith('EXT.'):
@@ -291,7 +292,7 @@ def _embed_job(args):
     joint = []
     codes = ['EA', 'EB', 'EC']
     for i, (bp, decl) in enumerate(members):
-        prog = modelcheck.program_for(bp, decl, seed, with_ic=False)
+        prog = modelcheck.program_for(bp, decl, seed, with_ic=False, region_mode='always')
         ccs = [c['code'] for c in bp['countries']]
         if len(ccs) == 1:
             mapping = {ccs[0]: (codes[i], 'CUR' + codes[i])}
@@ -414,7 +415,7 @@ def run(rep):
     by = {}
     for b in good:
         by.setdefault(b['name'], []).append(b)
-    forced = [('SIMMARGIN', 'SIMCAP'), ('SIMCAP', 'SIM'), ('TWOBUS', 'SIMEX'), ('PC', 'SIMCAP'), ('FED', 'TWOGIFTS'),
+    forced = [('SIMMARGIN', 'SIMCAP'), ('SIMCAP', 'FED'), ('SIMCAP', 'SIM'), ('TWOBUS', 'SIMEX'), ('PC', 'SIMCAP'), ('FED', 'TWOGIFTS'),
               ('SIMBOND', 'MULTI'), ('SIMDEP', 'SIMMON')]
     forced = [f for f in forced if all(n in singles for n in f)]
     for i in range(n_embed):
